@@ -609,4 +609,494 @@ theorem lexRead_rel (name : List Char) (hname : IdSeg name) (r : List UInt8) (fu
   simp only [h1, Views.cons_eof h2, Bool.false_eq_true, if_false, cws_noop _ s1 hws, Views.cons_cur h2,
     beq_self_eq_true, if_true]
 
+/-! ### Str literals over ASCII -/
+
+/-- `write_quoted_str`'s treatment of one ASCII character, on bytes -/
+def escB (b : UInt8) : List UInt8 :=
+  if b == 34 then [92, 34]
+  else if b == 9 then [92, 116]
+  else if b == 13 then [92, 114]
+  else if b == 10 then [92, 110]
+  else if b == 92 then [92, 92]
+  else if b < 32 then uEscape b.toNat
+  else if b == 36 then [92, 36]
+  else [b]
+
+theorem encStrChar_ascii_nat : ∀ n, n < 128 → encStrChar (Char.ofNat n) = escB (UInt8.ofNat n) := by
+  decide +kernel
+
+theorem encStrChar_chr (b : UInt8) (h : b < 128) : encStrChar (chr b) = escB b := by
+  have hb : b.toNat < 128 := h
+  unfold chr
+  rw [encStrChar_ascii_nat _ hb]
+  simp
+
+theorem flatMap_encStrChar (w : List UInt8) (hw : ∀ b ∈ w, b < 128) :
+    (w.map chr).flatMap encStrChar = w.flatMap escB := by
+  induction w with
+  | nil => rfl
+  | cons a w ih =>
+    simp only [List.map_cons, List.flatMap_cons]
+    rw [encStrChar_chr a (hw a (by simp)), ih (fun b hb => hw b (by simp [hb]))]
+
+/-- position counter: a successful read moves it on -/
+theorem Views.read_pos {s : Scan} {b c : UInt8} {r : List UInt8} (h : Views s (b :: c :: r)) :
+    s.read.2.pos = s.pos + 1 := by
+  obtain ⟨hs, he, hc, hi⟩ := h
+  simp [Scan.read, Scan.readByte, hs, hi]
+
+theorem read_pos_le (s : Scan) : s.pos ≤ s.read.2.pos := by
+  unfold Scan.read Scan.readByte
+  cases hs : s.stash <;> cases hi : s.inp <;> simp
+
+/-- the classes of `escB` -/
+def rawB (b : UInt8) : Bool := !(b == 34) && !(b == 9) && !(b == 13) && !(b == 10) && !(b == 92) && !(b < 32) && !(b == 36)
+
+theorem escB_raw (b : UInt8) (h : rawB b = true) : escB b = [b] ∧ (b == 34) = false ∧ (b == 92) = false := by
+  simp only [rawB, Bool.and_eq_true, Bool.not_eq_true', decide_eq_false_iff_not] at h
+  obtain ⟨⟨⟨⟨⟨⟨h1, h2⟩, h3⟩, h4⟩, h5⟩, h6⟩, h7⟩ := h
+  refine ⟨?_, h1, h5⟩
+  simp [escB, h1, h2, h3, h4, h5, h6, h7]
+
+/-- one raw byte -/
+theorem strLoop_raw (b : UInt8) (hb : rawB b = true) (rest : List UInt8) (F : Nat) (s : Scan) (acc : List UInt8)
+    (hs : Views s (b :: rest)) :
+    strLoop (F + 1) s acc = strLoop F s.advance (acc ++ [b]) ∧ Views s.advance rest ∧ s.pos ≤ s.advance.pos := by
+  obtain ⟨_, h1, h2⟩ := escB_raw b hb
+  refine ⟨?_, hs.advance, read_pos_le s⟩
+  conv => lhs; unfold strLoop
+  simp [Views.cons_cur hs, Views.cons_eof hs, h1, h2]
+
+/-- a two-byte escape `\e` standing for the byte `b` -/
+theorem strLoop_esc2 (e b : UInt8) (he : (e = 110 ∧ b = 10) ∨ (e = 114 ∧ b = 13) ∨ (e = 116 ∧ b = 9) ∨
+      (e = 34 ∧ b = 34) ∨ (e = 36 ∧ b = 36) ∨ (e = 92 ∧ b = 92))
+    (rest : List UInt8) (F : Nat) (s : Scan) (acc : List UInt8) (hs : Views s (92 :: e :: rest)) :
+    ∃ s', strLoop (F + 1) s acc = strLoop F s' (acc ++ [b]) ∧ Views s' rest ∧ s.pos ≤ s'.pos := by
+  have hr := hs.read
+  have hp := read_pos_le s
+  have hp2 := read_pos_le s.read.2
+  refine ⟨s.read.2.advance, ?_, hr.2.advance, Nat.le_trans hp hp2⟩
+  conv => lhs; unfold strLoop
+  have e1 : ((92 : UInt8) == 34) = false := by decide
+  simp only [Views.cons_cur hs, Views.cons_eof hs, e1, Bool.false_eq_true, if_false, beq_self_eq_true, if_true]
+  unfold parseStrEscape Scan.readQ
+  cases hrd : s.read with
+  | mk o s1 =>
+    rw [hrd] at hr
+    simp only at hr
+    have : o = some e := by simpa using hr.1
+    subst this
+    simp only [Views.cons_cur hr.2]
+    rcases he with h | h | h | h | h | h <;> obtain ⟨rfl, rfl⟩ := h <;> simp [Scan.advance]
+
+
+theorem readQ_views {s : Scan} {b c : UInt8} {r : List UInt8} (h : Views s (b :: c :: r)) :
+    ∃ s1, s.readQ = .ok s1 ∧ Views s1 (c :: r) ∧ s.pos ≤ s1.pos := by
+  have hr := h.read
+  have hp := read_pos_le s
+  unfold Scan.readQ
+  cases hrd : s.read with
+  | mk o s1 =>
+    rw [hrd] at hr hp
+    simp only at hr hp
+    have : o = some c := by simpa using hr.1
+    subst this
+    exact ⟨s1, rfl, hr.2, hp⟩
+
+theorem uesc_facts : ∀ n, n < 32 →
+    uEscape n = [92, 117, 48, 48, hexDigitLower (n / 16), hexDigitLower (n % 16)] ∧
+    isHexB (hexDigitLower (n / 16)) = true ∧ isHexB (hexDigitLower (n % 16)) = true ∧
+    hexVal 48 * 4096 + hexVal 48 * 256 + hexVal (hexDigitLower (n / 16)) * 16 + hexVal (hexDigitLower (n % 16)) = n := by
+  decide +kernel
+
+/-- a control character written as `\u00XX` -/
+theorem strLoop_uesc (n : Nat) (hn : n < 32) (rest : List UInt8) (F : Nat) (s : Scan) (acc : List UInt8)
+    (hs : Views s (uEscape n ++ rest)) :
+    ∃ s', strLoop (F + 1) s acc = strLoop F s' (acc ++ [UInt8.ofNat n]) ∧ Views s' rest ∧ s.pos ≤ s'.pos := by
+  obtain ⟨hu, hx1, hx2, hval⟩ := uesc_facts n hn
+  rw [hu] at hs
+  simp only [List.cons_append, List.nil_append] at hs
+  obtain ⟨s1, r1, v1, p1⟩ := readQ_views hs
+  obtain ⟨s2, r2, v2, p2⟩ := readQ_views v1
+  obtain ⟨s3, r3, v3, p3⟩ := readQ_views v2
+  obtain ⟨s4, r4, v4, p4⟩ := readQ_views v3
+  obtain ⟨s5, r5, v5, p5⟩ : ∃ s5, s4.readQ = .ok s5 ∧ Views s5 (hexDigitLower (n % 16) :: rest) ∧ s4.pos ≤ s5.pos :=
+    readQ_views v4
+  have hp6 := read_pos_le s5
+  refine ⟨s5.advance, ?_, v5.advance, by unfold Scan.advance; omega⟩
+  conv => lhs; unfold strLoop
+  have e1 : ((92 : UInt8) == 34) = false := by decide
+  simp only [Views.cons_cur hs, Views.cons_eof hs, e1, Bool.false_eq_true, if_false, beq_self_eq_true, if_true]
+  unfold parseStrEscape
+  rw [r1]
+  simp only [Views.cons_cur v1]
+  have e : ∀ k : UInt8, k ≠ 117 → ((117 : UInt8) == k) = false := by intro k hk; simp; exact fun h => hk h.symm
+  simp only [e 98 (by decide), e 102 (by decide), e 110 (by decide), e 114 (by decide), e 116 (by decide),
+    e 34 (by decide), e 36 (by decide), e 39 (by decide), e 96 (by decide), e 92 (by decide),
+    Bool.false_eq_true, if_false, beq_self_eq_true, if_true]
+  unfold parseUnicodeEscape
+  simp only [Views.cons_cur v1, bne_self_eq_false, Bool.false_eq_true, if_false, r2, r3, r4, r5,
+    Scan.isHexDigit, Views.cons_cur v2, Views.cons_cur v3, Views.cons_cur v4, Views.cons_cur v5, hx1, hx2,
+    Bool.not_true]
+  have h48 : isHexB 48 = true := by decide
+  simp only [h48, Bool.not_true, Bool.false_eq_true, if_false, hval]
+  have hsur : ¬ (0xD800 ≤ n ∧ n ≤ 0xDFFF) := by omega
+  have henc : encChar (Char.ofNat n) = [UInt8.ofNat n] := by
+    unfold encChar; exact encChar_ascii_nat n (by omega)
+  simp [hsur, henc]
+
+
+/-- one character of a printed Str -/
+theorem strLoop_step (b : UInt8) (rest : List UInt8) (F : Nat) (s : Scan) (acc : List UInt8)
+    (hs : Views s (escB b ++ rest)) :
+    ∃ s', strLoop (F + 1) s acc = strLoop F s' (acc ++ [b]) ∧ Views s' rest ∧ s.pos ≤ s'.pos := by
+  unfold escB at hs
+  split at hs
+  · rename_i h; have : b = 34 := by simpa using h
+    subst this; exact strLoop_esc2 34 34 (by simp) rest F s acc hs
+  · split at hs
+    · rename_i h; have : b = 9 := by simpa using h
+      subst this; exact strLoop_esc2 116 9 (by simp) rest F s acc hs
+    · split at hs
+      · rename_i h; have : b = 13 := by simpa using h
+        subst this; exact strLoop_esc2 114 13 (by simp) rest F s acc hs
+      · split at hs
+        · rename_i h; have : b = 10 := by simpa using h
+          subst this; exact strLoop_esc2 110 10 (by simp) rest F s acc hs
+        · split at hs
+          · rename_i h; have : b = 92 := by simpa using h
+            subst this; exact strLoop_esc2 92 92 (by simp) rest F s acc hs
+          · split at hs
+            · rename_i h
+              have hn : b.toNat < 32 := h
+              have := strLoop_uesc b.toNat hn rest F s acc hs
+              simpa using this
+            · split at hs
+              · rename_i h; have : b = 36 := by simpa using h
+                subst this; exact strLoop_esc2 36 36 (by simp) rest F s acc hs
+              · rename_i h1 h2 h3 h4 h5 h6 h7
+                have hraw : rawB b = true := by
+                  simp only [rawB, Bool.and_eq_true, Bool.not_eq_true', decide_eq_false_iff_not]
+                  exact ⟨⟨⟨⟨⟨⟨by simpa using h1, by simpa using h2⟩, by simpa using h3⟩, by simpa using h4⟩,
+                    by simpa using h5⟩, h6⟩, by simpa using h7⟩
+                obtain ⟨h8, h9, h10⟩ := strLoop_raw b hraw rest F s acc hs
+                exact ⟨s.advance, h8, h9, h10⟩
+
+/-- the body of a printed Str up to its closing quote -/
+theorem strLoop_body (w : List UInt8) (rest : List UInt8) :
+    ∀ (fuel : Nat) (s : Scan) (acc : List UInt8), Views s (w.flatMap escB ++ 34 :: rest) → w.length < fuel →
+      ∃ s', strLoop fuel s acc = .ok (acc ++ w, s') ∧ Views s' (34 :: rest) ∧ s.pos ≤ s'.pos := by
+  induction w with
+  | nil =>
+    intro fuel s acc hs hf
+    cases fuel with
+    | zero => omega
+    | succ n =>
+      simp only [List.flatMap_nil, List.nil_append] at hs
+      refine ⟨s, ?_, hs, Nat.le_refl _⟩
+      unfold strLoop
+      simp [Views.cons_cur hs]
+  | cons a w ih =>
+    intro fuel s acc hs hf
+    cases fuel with
+    | zero => omega
+    | succ n =>
+      simp only [List.flatMap_cons, List.append_assoc] at hs
+      obtain ⟨s1, h1, h2, h3⟩ := strLoop_step a _ n s acc hs
+      obtain ⟨s', h4, h5, h6⟩ := ih n s1 (acc ++ [a]) h2 (by simp at hf; omega)
+      refine ⟨s', ?_, h5, Nat.le_trans h3 h6⟩
+      rw [h1, h4]; simp
+
+/-- ASCII text -/
+def AsciiStr (cs : List Char) : Prop := cs = (segBytes cs).map chr ∧ (segBytes cs).all (· < 128) = true
+
+instance (cs : List Char) : Decidable (AsciiStr cs) := by unfold AsciiStr; exact inferInstance
+
+theorem AsciiStr.lt {cs : List Char} (h : AsciiStr cs) : ∀ b ∈ segBytes cs, b < 128 := by
+  have := h.2; simpa [List.all_eq_true] using this
+
+/-- `parse_str` on a printed ASCII Str -/
+theorem parseStr_quoted (cs : List Char) (hcs : AsciiStr cs) (rest : List UInt8) (fuel : Nat) (s : Scan)
+    (hs : Views s (encQuoted cs ++ rest)) (hf : (segBytes cs).length + 2 ≤ fuel) :
+    ∃ s', parseStr fuel s = .ok (cs, s') ∧ Views s' rest := by
+  have henc : encQuoted cs ++ rest = 34 :: ((segBytes cs).flatMap escB ++ 34 :: rest) := by
+    unfold encQuoted
+    rw [hcs.1, flatMap_encStrChar _ hcs.lt]
+    simp [← hcs.1]
+  rw [henc] at hs
+  -- at least the closing quote follows the opening one
+  have hnext : ∃ c r, (segBytes cs).flatMap escB ++ 34 :: rest = c :: r := by
+    cases h : (segBytes cs).flatMap escB ++ 34 :: rest with
+    | nil => simp at h
+    | cons c r => exact ⟨c, r, rfl⟩
+  obtain ⟨c, r, hcr⟩ := hnext
+  have hpos : s.advance.pos = s.pos + 1 := by
+    rw [hcr] at hs; exact Views.read_pos hs
+  obtain ⟨s1, h1, h2, h3⟩ := strLoop_body (segBytes cs) rest fuel s.advance [] hs.advance (by omega)
+  refine ⟨s1.advance, ?_, h2.advance⟩
+  unfold parseStr
+  simp only [Views.cons_cur hs, bne_self_eq_false, Bool.false_eq_true, if_false, h1, List.nil_append]
+  have hne : (s.pos == s1.pos) = false := by simp; omega
+  simp only [hne, Bool.false_eq_true, if_false]
+  rw [lossy_ascii _ hcs.lt, ← hcs.1]
+
+example : AsciiStr "a \"q\"\n\t$x\\ \u0001".toList := by decide
+
+
+/-- a printed ASCII Str as a token -/
+theorem lexRead_str (cs : List Char) (hcs : AsciiStr cs) (rest : List UInt8) (fuel : Nat) (s : Scan)
+    (hs : Views s (encQuoted cs ++ rest)) (hf : (segBytes cs).length + 3 ≤ fuel) :
+    ∃ s', lexRead fuel s = .ok s' (.val (.str cs)) ∧ Views s' rest := by
+  obtain ⟨F, rfl⟩ : ∃ F, fuel = F + 1 := ⟨fuel - 1, by omega⟩
+  obtain ⟨s', h1, h2⟩ := parseStr_quoted cs hcs rest F s hs (by omega)
+  refine ⟨s', ?_, h2⟩
+  have hs' : Views s (34 :: (cs.flatMap encStrChar ++ [34] ++ rest)) := by simpa [encQuoted] using hs
+  unfold lexRead
+  simp only [Views.cons_eof hs', Views.cons_cur hs']
+  have e : ∀ k : UInt8, k ≠ 34 → ((34 : UInt8) == k) = false := by intro k hk; simp; exact fun h => hk h.symm
+  simp only [Bool.false_eq_true, if_false, e 10 (by decide), e 13 (by decide), e 9 (by decide), e 32 (by decide),
+    Bool.or_self, beq_self_eq_true, if_true, h1]
+
+/-- `@id "dis"` followed by anything -/
+theorem lexRead_refdis (id dis : List Char) (hid : RefSeg id) (hdis : AsciiStr dis) (rest : List UInt8)
+    (fuel : Nat) (s : Scan) (hs : Views s (64 :: (segBytes id ++ 32 :: (encQuoted dis ++ rest))))
+    (hf : (segBytes id).length + (segBytes dis).length + 5 ≤ fuel) :
+    ∃ s', lexRead fuel s = .ok s' (.val (.ref id (some dis))) ∧ Views s' rest := by
+  obtain ⟨F, rfl⟩ : ∃ F, fuel = F + 1 := ⟨fuel - 1, by omega⟩
+  have hadv := hs.advance
+  have hq : ∃ q, encQuoted dis ++ rest = 34 :: q := ⟨dis.flatMap encStrChar ++ 34 :: rest, by simp [encQuoted]⟩
+  obtain ⟨q, hq⟩ := hq
+  have hno : NoRefHead (32 :: (encQuoted dis ++ rest)) := by simp [NoRefHead]; decide
+  obtain ⟨s1, h1, h2⟩ := refLoop_pass (segBytes id) hid.all _ hno F s.advance [] hadv (by omega)
+  have hne : (segBytes id).isEmpty = false := by
+    cases hb : segBytes id with
+    | nil => exact absurd hb hid.2.1
+    | cons b r => rfl
+  rw [hq] at h2
+  have hp := Views.peek h2
+  have hrd := read_stashed hp.2.1 hp.2.2.2.1 hp.2.2.2.2
+  rw [← hq] at hrd
+  obtain ⟨s4, h4, h5⟩ := parseStr_quoted dis hdis rest F s1.peek.2.read.2 hrd.2 (by omega)
+  refine ⟨s4, ?_, h5⟩
+  have e : ∀ k : UInt8, k ≠ 64 → ((64 : UInt8) == k) = false := by intro k hk; simp; exact fun h => hk h.symm
+  unfold lexRead
+  simp only [Views.cons_eof hs, Views.cons_cur hs]
+  simp only [Bool.false_eq_true, if_false, e 10 (by decide), e 13 (by decide), e 9 (by decide), e 32 (by decide),
+    e 34 (by decide), e 96 (by decide), Bool.or_self, beq_self_eq_true, if_true]
+  unfold parseRef
+  simp only [Views.cons_cur hs, bne_self_eq_false, Bool.false_eq_true, if_false, h1, List.nil_append, hne, hid.lossy]
+  simp only [Views.cons_eof h2, Views.cons_cur h2, Bool.not_false, beq_self_eq_true, Bool.and_self, if_true]
+  cases hpk : s1.peek with
+  | mk o s2 =>
+    rw [hpk] at hp hrd h4
+    simp only at hp hrd h4
+    rw [hp.1]
+    simp only [beq_self_eq_true, if_true]
+    unfold Scan.readQ
+    cases hr2 : s2.read with
+    | mk o2 s3 =>
+      rw [hr2] at hrd h4
+      simp only at hrd h4
+      rw [hrd.1]
+      simp only [h4]
+
+/-! ### Uri literals over ASCII -/
+
+/-- `impl ToZinc for Uri`'s treatment of one ASCII character, on bytes -/
+def escU (b : UInt8) : List UInt8 :=
+  if b == 96 then [92, 96]
+  else if b == 92 then [92, 92]
+  else if b < 32 then uEscape b.toNat
+  else [b]
+
+theorem encUriChar_ascii_nat : ∀ n, n < 128 → encUriChar (Char.ofNat n) = escU (UInt8.ofNat n) := by
+  decide +kernel
+
+theorem flatMap_encUriChar (w : List UInt8) (hw : ∀ b ∈ w, b < 128) :
+    (w.map chr).flatMap encUriChar = w.flatMap escU := by
+  induction w with
+  | nil => rfl
+  | cons a w ih =>
+    simp only [List.map_cons, List.flatMap_cons]
+    have ha : a.toNat < 128 := hw a (by simp)
+    have : encUriChar (chr a) = escU a := by
+      unfold chr; rw [encUriChar_ascii_nat _ ha]; simp
+    rw [this, ih (fun b hb => hw b (by simp [hb]))]
+
+/-- one raw byte -/
+theorem uriLoop_raw (b : UInt8) (h1 : (b == 96) = false) (h2 : (b == 92) = false) (rest : List UInt8) (F : Nat)
+    (s : Scan) (acc : List UInt8) (hs : Views s (b :: rest)) :
+    uriLoop (F + 1) s acc = uriLoop F s.advance (acc ++ [b]) ∧ Views s.advance rest ∧ s.pos ≤ s.advance.pos := by
+  refine ⟨?_, hs.advance, read_pos_le s⟩
+  conv => lhs; unfold uriLoop
+  simp [Views.cons_cur hs, Views.cons_eof hs, h1, h2]
+
+/-- `` \` `` and `\\` -/
+theorem uriLoop_esc2 (e : UInt8) (he : e = 96 ∨ e = 92) (c : UInt8) (rest : List UInt8) (F : Nat) (s : Scan)
+    (acc : List UInt8) (hs : Views s (92 :: e :: c :: rest)) :
+    ∃ s', uriLoop (F + 1) s acc = uriLoop F s' (acc ++ [e]) ∧ Views s' (c :: rest) ∧ s.pos ≤ s'.pos := by
+  have hp := Views.peek hs
+  have hrd := read_stashed hp.2.1 hp.2.2.2.1 hp.2.2.2.2
+  have hpos1 : s.peek.2.pos = s.pos := by simp [Scan.peek, Scan.readByte]; cases s.inp <;> simp
+  have hpos2 := read_pos_le s.peek.2
+  have hpos3 := read_pos_le s.peek.2.read.2
+  refine ⟨s.peek.2.read.2.advance, ?_, hrd.2.advance, by unfold Scan.advance; omega⟩
+  conv => lhs; unfold uriLoop
+  have e1 : ((92 : UInt8) == 96) = false := by decide
+  simp only [Views.cons_cur hs, Views.cons_eof hs, e1, Bool.false_eq_true, if_false, beq_self_eq_true, if_true]
+  cases hpk : s.peek with
+  | mk o s1 =>
+    rw [hpk] at hp hrd
+    simp only at hp hrd
+    rw [hp.1]
+    simp only
+    unfold Scan.readQ
+    cases hr2 : s1.read with
+    | mk o2 s2 =>
+      rw [hr2] at hrd
+      simp only at hrd
+      rw [hrd.1]
+      rcases he with rfl | rfl <;> simp
+
+
+/-- `parse_str_unicode_escape` on `u00XX` (cursor on `u`) -/
+theorem unicodeEscape_views (n : Nat) (hn : n < 32) (rest : List UInt8) (s1 : Scan)
+    (v1 : Views s1 (117 :: 48 :: 48 :: hexDigitLower (n / 16) :: hexDigitLower (n % 16) :: rest)) :
+    ∃ s5, parseUnicodeEscape s1 = .ok ([UInt8.ofNat n], s5) ∧ Views s5 (hexDigitLower (n % 16) :: rest) ∧ s1.pos ≤ s5.pos := by
+  obtain ⟨_, hx1, hx2, hval⟩ := uesc_facts n hn
+  obtain ⟨s2, r2, v2, p2⟩ := readQ_views v1
+  obtain ⟨s3, r3, v3, p3⟩ := readQ_views v2
+  obtain ⟨s4, r4, v4, p4⟩ := readQ_views v3
+  obtain ⟨s5, r5, v5, p5⟩ : ∃ s5, s4.readQ = .ok s5 ∧ Views s5 (hexDigitLower (n % 16) :: rest) ∧ s4.pos ≤ s5.pos :=
+    readQ_views v4
+  refine ⟨s5, ?_, v5, by omega⟩
+  unfold parseUnicodeEscape
+  simp only [Views.cons_cur v1, bne_self_eq_false, Bool.false_eq_true, if_false, r2, r3, r4, r5,
+    Scan.isHexDigit, Views.cons_cur v2, Views.cons_cur v3, Views.cons_cur v4, Views.cons_cur v5, hx1, hx2,
+    Bool.not_true]
+  have h48 : isHexB 48 = true := by decide
+  simp only [h48, Bool.not_true, Bool.false_eq_true, if_false, hval]
+  have hsur : ¬ (0xD800 ≤ n ∧ n ≤ 0xDFFF) := by omega
+  have henc : encChar (Char.ofNat n) = [UInt8.ofNat n] := by
+    unfold encChar; exact encChar_ascii_nat n (by omega)
+  simp [hsur, henc]
+
+/-- a control character written as `\u00XX` inside a Uri -/
+theorem uriLoop_uesc (n : Nat) (hn : n < 32) (rest : List UInt8) (F : Nat) (s : Scan) (acc : List UInt8)
+    (hs : Views s (uEscape n ++ rest)) :
+    ∃ s', uriLoop (F + 1) s acc = uriLoop F s' (acc ++ [UInt8.ofNat n]) ∧ Views s' rest ∧ s.pos ≤ s'.pos := by
+  obtain ⟨hu, _, _, _⟩ := uesc_facts n hn
+  rw [hu] at hs
+  simp only [List.cons_append, List.nil_append] at hs
+  have hp := Views.peek hs
+  have hrd := read_stashed hp.2.1 hp.2.2.2.1 hp.2.2.2.2
+  have hpos1 : s.peek.2.pos = s.pos := by simp [Scan.peek, Scan.readByte]; cases s.inp <;> simp
+  have hpos2 := read_pos_le s.peek.2
+  obtain ⟨s5, h5, v5, p5⟩ := unicodeEscape_views n hn rest s.peek.2.read.2 hrd.2
+  have hpos3 := read_pos_le s5
+  refine ⟨s5.advance, ?_, v5.advance, by unfold Scan.advance; omega⟩
+  conv => lhs; unfold uriLoop
+  have e1 : ((92 : UInt8) == 96) = false := by decide
+  simp only [Views.cons_cur hs, Views.cons_eof hs, e1, Bool.false_eq_true, if_false, beq_self_eq_true, if_true]
+  cases hpk : s.peek with
+  | mk o s1 =>
+    rw [hpk] at hp hrd h5
+    simp only at hp hrd h5
+    rw [hp.1]
+    simp only
+    have e : ∀ k : UInt8, k ≠ 117 → ((117 : UInt8) == k) = false := by intro k hk; simp; exact fun h => hk h.symm
+    simp only [e 58 (by decide), e 47 (by decide), e 63 (by decide), e 35 (by decide), e 91 (by decide),
+      e 93 (by decide), e 64 (by decide), e 96 (by decide), e 38 (by decide), e 61 (by decide), e 59 (by decide),
+      e 92 (by decide), Bool.or_self, Bool.false_eq_true, if_false]
+    unfold Scan.readQ
+    cases hr2 : s1.read with
+    | mk o2 s2 =>
+      rw [hr2] at hrd h5
+      simp only at hrd h5
+      rw [hrd.1]
+      simp only [h5]
+
+/-- one character of a printed Uri (something — at least the closing backtick — follows) -/
+theorem uriLoop_step (b : UInt8) (c : UInt8) (rest : List UInt8) (F : Nat) (s : Scan) (acc : List UInt8)
+    (hs : Views s (escU b ++ c :: rest)) :
+    ∃ s', uriLoop (F + 1) s acc = uriLoop F s' (acc ++ [b]) ∧ Views s' (c :: rest) ∧ s.pos ≤ s'.pos := by
+  unfold escU at hs
+  split at hs
+  · rename_i h; have : b = 96 := by simpa using h
+    subst this; exact uriLoop_esc2 96 (Or.inl rfl) c rest F s acc hs
+  · split at hs
+    · rename_i h; have : b = 92 := by simpa using h
+      subst this; exact uriLoop_esc2 92 (Or.inr rfl) c rest F s acc hs
+    · split at hs
+      · rename_i h
+        have hn : b.toNat < 32 := h
+        have := uriLoop_uesc b.toNat hn (c :: rest) F s acc hs
+        simpa using this
+      · rename_i h1 h2 h3
+        obtain ⟨h8, h9, h10⟩ := uriLoop_raw b (by simpa using h1) (by simpa using h2) (c :: rest) F s acc hs
+        exact ⟨s.advance, h8, h9, h10⟩
+
+theorem uriLoop_body (w : List UInt8) (rest : List UInt8) :
+    ∀ (fuel : Nat) (s : Scan) (acc : List UInt8), Views s (w.flatMap escU ++ 96 :: rest) → w.length < fuel →
+      ∃ s', uriLoop fuel s acc = .ok (acc ++ w, s') ∧ Views s' (96 :: rest) ∧ s.pos ≤ s'.pos := by
+  induction w with
+  | nil =>
+    intro fuel s acc hs hf
+    cases fuel with
+    | zero => omega
+    | succ n =>
+      simp only [List.flatMap_nil, List.nil_append] at hs
+      refine ⟨s, ?_, hs, Nat.le_refl _⟩
+      unfold uriLoop
+      simp [Views.cons_cur hs]
+  | cons a w ih =>
+    intro fuel s acc hs hf
+    cases fuel with
+    | zero => omega
+    | succ n =>
+      simp only [List.flatMap_cons, List.append_assoc] at hs
+      have hnext : ∃ c r, w.flatMap escU ++ 96 :: rest = c :: r := by
+        cases h : w.flatMap escU ++ 96 :: rest with
+        | nil => simp at h
+        | cons c r => exact ⟨c, r, rfl⟩
+      obtain ⟨c, r, hcr⟩ := hnext
+      rw [hcr] at hs
+      obtain ⟨s1, h1, h2, h3⟩ := uriLoop_step a c r n s acc hs
+      rw [← hcr] at h2
+      obtain ⟨s', h4, h5, h6⟩ := ih n s1 (acc ++ [a]) h2 (by simp at hf; omega)
+      refine ⟨s', ?_, h5, Nat.le_trans h3 h6⟩
+      rw [h1, h4]; simp
+
+/-- `parse_uri` on a printed ASCII Uri, as a token -/
+theorem lexRead_uri (cs : List Char) (hcs : AsciiStr cs) (rest : List UInt8) (fuel : Nat) (s : Scan)
+    (hs : Views s (encUri cs ++ rest)) (hf : (segBytes cs).length + 3 ≤ fuel) :
+    ∃ s', lexRead fuel s = .ok s' (.val (.uri cs)) ∧ Views s' rest := by
+  obtain ⟨F, rfl⟩ : ∃ F, fuel = F + 1 := ⟨fuel - 1, by omega⟩
+  have henc : encUri cs ++ rest = 96 :: ((segBytes cs).flatMap escU ++ 96 :: rest) := by
+    have e : cs.flatMap encUriChar = (segBytes cs).flatMap escU := by
+      conv => lhs; rw [hcs.1]
+      exact flatMap_encUriChar _ hcs.lt
+    unfold encUri
+    rw [e]; simp
+  rw [henc] at hs
+  have hnext : ∃ c r, (segBytes cs).flatMap escU ++ 96 :: rest = c :: r := by
+    cases h : (segBytes cs).flatMap escU ++ 96 :: rest with
+    | nil => simp at h
+    | cons c r => exact ⟨c, r, rfl⟩
+  obtain ⟨c, r, hcr⟩ := hnext
+  have hpos : s.advance.pos = s.pos + 1 := by
+    rw [hcr] at hs; exact Views.read_pos hs
+  obtain ⟨s1, h1, h2, h3⟩ := uriLoop_body (segBytes cs) rest F s.advance [] hs.advance (by omega)
+  refine ⟨s1.advance, ?_, h2.advance⟩
+  unfold lexRead
+  simp only [Views.cons_eof hs, Views.cons_cur hs]
+  have e : ∀ k : UInt8, k ≠ 96 → ((96 : UInt8) == k) = false := by intro k hk; simp; exact fun h => hk h.symm
+  simp only [Bool.false_eq_true, if_false, e 10 (by decide), e 13 (by decide), e 9 (by decide), e 32 (by decide),
+    e 34 (by decide), Bool.or_self, beq_self_eq_true, if_true]
+  unfold parseUri
+  simp only [Views.cons_cur hs, bne_self_eq_false, Bool.false_eq_true, if_false, h1, List.nil_append]
+  have hne : (s.pos == s1.pos) = false := by simp; omega
+  simp only [hne, Bool.false_eq_true, if_false]
+  rw [lossy_ascii _ hcs.lt, ← hcs.1]
+
 end Hs.FText
